@@ -83,7 +83,7 @@ Lemma okrun_read_u64 x r : x < two64 -> okrun read_u64 (le64 x ++ r) x r.
 Proof.
   intros Hx. unfold read_u64. eapply okrun_bind.
   - apply okrun_read_full. apply le64_length.
-  - cbv beta. rewrite un_le64_le64 by assumption. apply okrun_ret.
+  - cbv beta. rewrite un_le64_le64, u64_small by assumption. apply okrun_ret.
 Qed.
 
 Lemma okrun_read_id id r : length id = 32%nat -> okrun read_id (id ++ r) id r.
